@@ -499,17 +499,33 @@ func violationReproduced(ev []replayEvent, v sym.Violation) (bool, string) {
 
 var harnessFnRE = regexp.MustCompile(`(?m)^func (ZZ\w+)\(\)`)
 
-// materialise writes the overlay files of one package for native replay.
+// materialise writes the overlay files for native replay of one package's
+// harnesses: the same overlay the symbolic run used (harness files, runtime,
+// substituted imports, model packages) plus a generated test driver.
 func materialise(verif string, hs []load.Harness, pkgDir string, cases []replayCase, dir string) (string, error) {
 	os.RemoveAll(dir)
 	if err := os.MkdirAll(dir, 0o755); err != nil {
 		return "", err
 	}
-	rt, err := os.ReadFile(filepath.Join(verif, "harness", "rt", "zz_rt.go.tmpl"))
+	ov, _, err := load.Overlay(repoDir, verif, hs)
 	if err != nil {
 		return "", err
 	}
 	repl := map[string]string{}
+	n := 0
+	var paths []string
+	for p := range ov {
+		paths = append(paths, p)
+	}
+	sort.Strings(paths)
+	for _, p := range paths {
+		n++
+		local := filepath.Join(dir, fmt.Sprintf("f%03d_%s", n, filepath.Base(p)))
+		if err := os.WriteFile(local, ov[p], 0o644); err != nil {
+			return "", err
+		}
+		repl[p] = local
+	}
 	pkgName := ""
 	var fns []string
 	for _, h := range hs {
@@ -517,11 +533,6 @@ func materialise(verif string, hs []load.Harness, pkgDir string, cases []replayC
 			continue
 		}
 		pkgName = h.PkgName
-		base := "zz_h_" + filepath.Base(h.File)
-		if err := os.WriteFile(filepath.Join(dir, base), h.Src, 0o644); err != nil {
-			return "", err
-		}
-		repl[filepath.Join(repoDir, pkgDir, base)] = filepath.Join(dir, base)
 		for _, m := range harnessFnRE.FindAllSubmatch(h.Src, -1) {
 			fns = append(fns, string(m[1]))
 		}
@@ -529,9 +540,6 @@ func materialise(verif string, hs []load.Harness, pkgDir string, cases []replayC
 	if pkgName == "" {
 		return "", fmt.Errorf("no harness in %s", pkgDir)
 	}
-	rtSrc := strings.Replace(string(rt), "package PKGNAME", "package "+pkgName, 1)
-	os.WriteFile(filepath.Join(dir, "zz_rt.go"), []byte(rtSrc), 0o644)
-	repl[filepath.Join(repoDir, pkgDir, "zz_rt.go")] = filepath.Join(dir, "zz_rt.go")
 	var tb strings.Builder
 	fmt.Fprintf(&tb, "package %s\n\nimport \"testing\"\n\nfunc TestZZReplay(t *testing.T) {\n\tzzRunCases(map[string]func(){\n", pkgName)
 	for _, f := range fns {
